@@ -55,7 +55,19 @@ pub fn parse_ids(bytes: &[u8], unit: usize) -> Result<Vec<i64>, String> {
     while !rest.is_empty() {
         let nl = match rest.iter().position(|b| *b == b'\n') {
             Some(p) => p,
-            None => return Err(format!("truncated record at the end: {}", show(rest))),
+            None => {
+                // a torn record at the very end of the file
+                let text = String::from_utf8_lossy(rest).to_string();
+                let mut parts = text.trim_start_matches('#').splitn(3, ',');
+                if let (Some(id), Some(sz)) = (parts.next().and_then(|x| x.parse::<i64>().ok()), parts.next().and_then(|x| x.parse::<i64>().ok())) {
+                    if text.starts_with('#') && sz >= 2 && rest.len() % unit == 0 && rest.len() < sz as usize * unit
+                        && payload(id, sz, unit).as_bytes().starts_with(rest) {
+                        ids.push(id + 100000);
+                        break;
+                    }
+                }
+                return Err(format!("truncated record at the end: {}", show(rest)));
+            }
         };
         let line = &rest[..=nl];
         let text = String::from_utf8_lossy(line).to_string();
@@ -63,6 +75,17 @@ pub fn parse_ids(bytes: &[u8], unit: usize) -> Result<Vec<i64>, String> {
         let id: i64 = parts.next().and_then(|x| x.parse().ok()).ok_or_else(|| format!("bad record {}", show(line)))?;
         let sz: i64 = parts.next().and_then(|x| x.parse().ok()).ok_or_else(|| format!("bad record {}", show(line)))?;
         if !text.starts_with('#') || text != payload(id, sz, unit) {
+            // a torn record: the first k units of payload(id, sz) with the next record (or the end) right behind
+            // them - what a write call that the operating system cut short leaves (Rolling.tla, EncFail with os)
+            if text.starts_with('#') && sz >= 2 {
+                let full = payload(id, sz, unit).into_bytes();
+                if let Some(k) = (1..sz as usize).rev().find(|k| rest.len() >= k * unit && rest[..k * unit] == full[..k * unit]
+                    && (rest.len() == k * unit || rest[k * unit] == b'#')) {
+                    ids.push(id + 100000);
+                    rest = &rest[k * unit..];
+                    continue;
+                }
+            }
             return Err(format!("corrupt record {}", show(line)));
         }
         ids.push(id);
@@ -257,6 +280,21 @@ fn install_hook() {
     })));
 }
 
+/// RLIMIT_FSIZE for the whole process (SIGXFSZ ignored, so that a write beyond the limit fails with EFBIG after
+/// the part that still fits was written)
+fn set_fsize_limit(limit: Option<u64>) {
+    unsafe {
+        libc::signal(libc::SIGXFSZ, libc::SIG_IGN);
+        let mut rl = libc::rlimit { rlim_cur: 0, rlim_max: 0 };
+        libc::getrlimit(libc::RLIMIT_FSIZE, &mut rl);
+        rl.rlim_cur = match limit {
+            Some(l) => l as libc::rlim_t,
+            None => rl.rlim_max,
+        };
+        libc::setrlimit(libc::RLIMIT_FSIZE, &rl);
+    }
+}
+
 // ---------------------------------------------------------------- one materialisation of a case
 #[derive(Clone, Copy, Debug)]
 pub struct Mat {
@@ -439,6 +477,9 @@ pub fn replay_case(case: &Value, mat: Mat) -> Option<Value> {
     let buf_floor = p["buf"].as_u64().unwrap_or(0);
     if buf_floor != 0 && (if 1024 / mat.unit >= 50 { 99 } else { 1024 / mat.unit as u64 }) != buf_floor {
         return None;
+    }
+    if mat.unit == 600 && buf_floor != 1 {
+        return None; // (this materialisation exists for the instances about its class of units)
     }
     if cfg!(feature = "bgrot") {
         // fault hooks are per thread and would not reach the rotation thread; errors of a background rotation are
@@ -697,13 +738,23 @@ pub fn replay_case(case: &Value, mat: Mat) -> Option<Value> {
                     continue;
                 }
                 let encfail = res == "encfail";
-                if encfail {
+                let os_fail = encfail && op["os"].as_bool().unwrap_or(false);
+                if os_fail {
+                    // the file itself takes only k units of the record: a file size limit just above the current size
+                    // (the caller runs these histories one at a time, on the only thread that writes files)
+                    let k = op["part"].as_u64().unwrap();
+                    let cur = fs::metadata(world.act()).map(|m| m.len()).unwrap_or(0);
+                    set_fsize_limit(Some(cur + k * mat.unit as u64));
+                } else if encfail {
                     let k = op["part"].as_i64().unwrap();
                     *enc_script.lock().unwrap() = Some(payload(id, k, mat.unit));
                 }
                 let res = if encfail { "err" } else { res };
                 let r = catch(|| a.append(&log::Record::builder().level(log::Level::Info).args(format_args!("{}", msg)).build()));
-                if encfail {
+                if os_fail {
+                    set_fsize_limit(None);
+                    buffered.store(0, std::sync::atomic::Ordering::SeqCst);
+                } else if encfail {
                     if enc_script.lock().unwrap().take().is_some() {
                         return fail(si, "the encoder was not called where the specification has it fail", Value::Null);
                     }
@@ -764,9 +815,17 @@ pub fn main(args: &[String]) {
         Mat { unit: 16, gz: true, chunked: false, delete_roller: true, via_config: true, dir_pattern: false, cross_mount: false },
         Mat { unit: 12, gz: false, chunked: false, delete_roller: false, via_config: true, dir_pattern: true, cross_mount: false },
         Mat { unit: 14, gz: false, chunked: false, delete_roller: false, via_config: false, dir_pattern: false, cross_mount: true },
+        // 600-byte units: one unit fits the BufWriter, a record of two goes to the file in one write call
+        Mat { unit: 600, gz: false, chunked: false, delete_roller: true, via_config: false, dir_pattern: false, cross_mount: false },
     ];
+    // histories in which the operating system cuts a write short need a process-wide file size limit: they run one
+    // at a time after the others
+    let is_os = |c: &Value| c["ops"].as_array().unwrap().iter().any(|o| o["os"].as_bool().unwrap_or(false));
     let res = par_map(&rows, threads(), |i, c| {
         let mut out = vec![];
+        if is_os(c) {
+            return out;
+        }
         for m in mats.iter() {
             if let Some(mm) = replay_case(c, *m) {
                 out.push(json!({"case": i, "params": c["params"], "mat": format!("{:?}", m), "mismatch": mm,
@@ -780,8 +839,22 @@ pub fn main(args: &[String]) {
         }
         out
     });
+    let mut res = res;
+    let mut os_cases = 0;
+    for (i, c) in rows.iter().enumerate() {
+        if !is_os(c) {
+            continue;
+        }
+        os_cases += 1;
+        for m in mats.iter() {
+            if let Some(mm) = replay_case(c, *m) {
+                res.push(json!({"case": i, "params": c["params"], "mat": format!("{:?}", m), "mismatch": mm, "ops": c["ops"]}));
+                break;
+            }
+        }
+    }
     write_ndjson(&args[1], &res);
-    println!("{}", json!({"cases": rows.len(), "materialisations": mats.len(), "mismatches": res.len(),
+    println!("{}", json!({"cases": rows.len(), "materialisations": mats.len(), "mismatches": res.len(), "os_write_failures": os_cases,
                           "cross_mount_available": Scratch::other_mount("probe").is_some(),
                           "background_rotation": cfg!(feature = "bgrot"), "waited_for_background_rotation": BG_WAITS.load(std::sync::atomic::Ordering::Relaxed)}));
 }
